@@ -6,8 +6,11 @@
 
    Identifiers are integers: the harness maps the identifiers of a case to Z by an order-isomorphism
    (integers to themselves, strings to their rank in byte order), so one model serves both.
-   Attribute values are integers: ratings are generated as k/2 and carried as k, timestamps and the
-   extra column are integers.  Definitions only; proofs are in Proofs/C01_*.v. *)
+   Attribute values are integers or missing (None = Arrow null / NaN / NaT): ratings are generated as
+   k/2 and carried as k, timestamps and the extra column are integers.  A record carries one position
+   per attribute column of the case's schema; a batch that lacks a column has None there (Arrow's
+   permissive concat_tables fills nulls).  Time bounds are rationals (float seconds, date-times with a
+   sub-second part).  Definitions only; proofs are in Proofs/C01_*.v. *)
 From Coq Require Import ZArith QArith List Bool Arith.
 Import ListNotations.
 Open Scope Z_scope.
@@ -58,7 +61,7 @@ Definition add_entities (v : option vocab) (new : list id) (pol : dup_policy) : 
     else Ok (Some (cur ++ fresh)).
 
 (* ---- relationship records ---- *)
-Definition attrs := list Z.
+Definition attrs := list (option Z).
 Definition irow : Type := id * id * attrs.          (* input record: user id, item id, attribute values *)
 Definition rec : Type := nat * nat * attrs.         (* stored record: user number, item number, attrs *)
 Definition r_u (r : rec) : nat := fst (fst r).
@@ -68,8 +71,40 @@ Definition r_a (r : rec) : attrs := snd r.
 (* which attribute columns the interaction frames of a case carry, in this order *)
 Record schema := { s_rating : bool; s_ts : bool; s_extra : bool }.
 Definition ts_pos (s : schema) : nat := if s_rating s then 1%nat else 0%nat.
-Definition ts_of (s : schema) (a : attrs) : Z := nth (ts_pos s) a 0.
-Definition rating2_of (a : attrs) : Z := nth 0 a 0.              (* twice the rating *)
+Definition ts_of (s : schema) (a : attrs) : option Z := nth (ts_pos s) a None.
+Definition rating2_of (a : attrs) : option Z := nth 0 a None.    (* twice the rating *)
+
+(* which attribute columns (positions of the schema) a table carries; [] = none *)
+Definition colset := list bool.
+Fixpoint or_cols (a b : colset) : colset :=
+  match a, b with
+  | [], _ => b
+  | _, [] => a
+  | x :: a', y :: b' => (x || y) :: or_cols a' b'
+  end.
+Definition has_col (c : colset) (k : nat) : bool := nth k c false.
+Definition has_ts (s : schema) (c : colset) : bool := s_ts s && has_col c (ts_pos s).
+Definition has_rating (s : schema) (c : colset) : bool := s_rating s && has_col c 0.
+(* the values of the columns a table carries *)
+Fixpoint select (c : colset) (a : attrs) : attrs :=
+  match c, a with
+  | b :: c', x :: a' => if b then x :: select c' a' else select c' a'
+  | _, _ => []
+  end.
+
+(* min_time <= timestamp < max_time on an integer column with rational bounds, as Arrow evaluates the
+   mask: a comparison with a null timestamp is null and `filter` drops the row *)
+Definition in_window (lo hi : option Q) (t : option Z) : bool :=
+  match lo, hi with
+  | None, None => true
+  | _, _ =>
+    match t with
+    | None => false
+    | Some z =>
+      match lo with Some l => Qle_bool l (inject_Z z) | None => true end &&
+      match hi with Some h => negb (Qle_bool h (inject_Z z)) | None => true end
+    end
+  end.
 
 Inductive repeats := RAllowed | RForbidden | RPresent.
 
@@ -77,11 +112,11 @@ Record bstate := {
   b_users : option vocab;
   b_items : option vocab;
   b_table : list rec;
-  b_cols : bool;                 (* the relationship table carries the attribute columns *)
+  b_cols : colset;               (* the attribute columns the relationship table carries *)
   b_repeats : repeats
 }.
 Definition init_state (allow_repeats : bool) : bstate :=
-  {| b_users := None; b_items := None; b_table := []; b_cols := false;
+  {| b_users := None; b_items := None; b_table := []; b_cols := [];
      b_repeats := if allow_repeats then RAllowed else RForbidden |}.
 
 Inductive cls := User | Item.
@@ -92,8 +127,8 @@ Inductive remove_spec :=
   | RemItems (l : list id).
 Inductive op :=
   | AddEntities (c : cls) (ids : list id) (p : dup_policy)
-  | AddInteractions (rows : list irow) (p : miss_policy)
-  | FilterInteractions (lo hi : option Z) (rem : option remove_spec)
+  | AddInteractions (rows : list irow) (cols : colset) (p : miss_policy)   (* cols: the columns this frame carries *)
+  | FilterInteractions (lo hi : option Q) (rem : option remove_spec)
   | Clear.
 
 Definition nat_pair_eqb (a b : nat * nat) : bool := Nat.eqb (fst a) (fst b) && Nat.eqb (snd a) (snd b).
@@ -161,7 +196,7 @@ Definition step (s : schema) (st : bstate) (o : op) : bstate * option err :=
                 | Err e => (st, Some e)
                 end
       end
-  | AddInteractions rows p =>
+  | AddInteractions rows cols p =>
       match link_class (b_users st) (map uid_of rows) p with
       | Err e => (st, Some e)
       | Ok (us, unums) =>
@@ -171,7 +206,7 @@ Definition step (s : schema) (st : bstate) (o : op) : bstate * option err :=
         | Ok (is_, inums) =>
           let st2 := {| b_users := us; b_items := is_; b_table := b_table st; b_cols := b_cols st; b_repeats := b_repeats st |} in
           let tbl := b_table st ++ zip_recs unums inums rows in
-          let done rp := ({| b_users := us; b_items := is_; b_table := tbl; b_cols := true; b_repeats := rp |}, None) in
+          let done rp := ({| b_users := us; b_items := is_; b_table := tbl; b_cols := or_cols (b_cols st) cols; b_repeats := rp |}, None) in
           match b_repeats st with
           | RPresent => done RPresent
           | RAllowed => if has_dup_pair (map fst tbl) then done RPresent else done RAllowed
@@ -181,12 +216,10 @@ Definition step (s : schema) (st : bstate) (o : op) : bstate * option err :=
       end
   | FilterInteractions lo hi rem =>
       let wants_time := match lo, hi with None, None => false | _, _ => true end in
-      if wants_time && negb (b_cols st && s_ts s) then (st, Some ERuntime)      (* timestamp column required *)
+      if wants_time && negb (has_ts s (b_cols st)) then (st, Some ERuntime)     (* timestamp column required *)
       else if needs_table rem (b_users st) (b_items st) then (st, Some EAssert)  (* assert etbl is not None *)
       else
-        let keep_time (r : rec) :=
-          match lo with Some l => l <=? ts_of s (r_a r) | None => true end &&
-          match hi with Some h => ts_of s (r_a r) <? h | None => true end in
+        let keep_time (r : rec) := in_window lo hi (ts_of s (r_a r)) in
         let users := opt_vocab (b_users st) in
         let items := opt_vocab (b_items st) in
         let num_in (xs : list (option nat)) (n : nat) := existsb (fun o => match o with Some k => Nat.eqb k n | None => false end) xs in
@@ -204,7 +237,7 @@ Definition step (s : schema) (st : bstate) (o : op) : bstate * option err :=
             b_table := filter (fun r => keep_time r && negb (removed r)) (b_table st);
             b_cols := b_cols st; b_repeats := b_repeats st |}, None)
   | Clear =>
-      ({| b_users := b_users st; b_items := b_items st; b_table := []; b_cols := false; b_repeats := b_repeats st |}, None)
+      ({| b_users := b_users st; b_items := b_items st; b_table := []; b_cols := []; b_repeats := b_repeats st |}, None)
   end.
 
 (* run an operation list, collecting the per-operation errors and the vocabularies after each step *)
@@ -257,7 +290,7 @@ Record dataset := {
   d_items : vocab;
   d_tbl : list rec;              (* sorted by (user number, item number) *)
   d_ptrs : list nat;             (* _row_ptrs *)
-  d_cols : bool
+  d_cols : colset
 }.
 
 Definition build (st : bstate) : res dataset :=
@@ -278,13 +311,13 @@ Definition view_table_ids (d : dataset) : list irow :=
   map (fun r => (term (d_users d) (r_u r), term (d_items d) (r_i r), r_a r)) (d_tbl d).
 
 Inductive field := FOnes | FAttr (k : nat).       (* indicator values, or the k-th attribute column *)
-Definition field_of (f : field) (a : attrs) : Z := match f with FOnes => 1 | FAttr k => nth k a 0 end.
-Definition value_of (f : field) (r : rec) : Z := field_of f (r_a r).
+Definition field_of (f : field) (a : attrs) : option Z := match f with FOnes => Some 1 | FAttr k => nth k a None end.
+Definition value_of (f : field) (r : rec) : option Z := field_of f (r_a r).
 
 (* CSR: (rowptrs, colinds, values); COO: (rows, cols, values) *)
-Definition view_csr (d : dataset) (f : field) : list nat * list nat * list Z :=
+Definition view_csr (d : dataset) (f : field) : list nat * list nat * list (option Z) :=
   (d_ptrs d, map r_i (d_tbl d), map (value_of f) (d_tbl d)).
-Definition view_coo (d : dataset) (f : field) : list nat * list nat * list Z :=
+Definition view_coo (d : dataset) (f : field) : list nat * list nat * list (option Z) :=
   (map r_u (d_tbl d), map r_i (d_tbl d), map (value_of f) (d_tbl d)).
 Definition view_nnz (d : dataset) : nat := length (d_tbl d).
 
@@ -297,7 +330,10 @@ Definition view_user_row (d : dataset) (u : id) : option (list (nat * attrs)) :=
   match index_of u (d_users d) with Some n => Some (row_of d n) | None => None end.
 
 (* _compute_stats, one row per entity: record_count, distinct count of the other class, and (when the
-   columns exist) rating count, sum of doubled ratings, first and last time *)
+   columns exist) the number of records that carry a rating (Arrow's count aggregate skips nulls), the sum
+   of the doubled ratings that exist, first and last of the timestamps that exist *)
+Fixpoint somes {A} (l : list (option A)) : list A :=
+  match l with [] => [] | Some x :: r => x :: somes r | None :: r => somes r end.
 Fixpoint dedup_nat (l : list nat) : list nat :=
   match l with
   | [] => []
@@ -310,15 +346,16 @@ Fixpoint zmax_list (l : list Z) : option Z :=
 Fixpoint zsum (l : list Z) : Z := match l with [] => 0 | x :: r => x + zsum r end.
 
 Record stat_row := {
-  st_records : nat; st_other : nat; st_rating_sum2 : Z; st_first : option Z; st_last : option Z
+  st_records : nat; st_other : nat; st_ratings : nat; st_rating_sum2 : Z; st_first : option Z; st_last : option Z
 }.
 Definition stats_of (s : schema) (c : cls) (d : dataset) (n : nat) : stat_row :=
   let mine := filter (fun r => Nat.eqb (match c with User => r_u r | Item => r_i r end) n) (d_tbl d) in
   {| st_records := length mine;
      st_other := length (dedup_nat (map (fun r => match c with User => r_i r | Item => r_u r end) mine));
-     st_rating_sum2 := zsum (map (fun r => rating2_of (r_a r)) mine);
-     st_first := zmin_list (map (fun r => ts_of s (r_a r)) mine);
-     st_last := zmax_list (map (fun r => ts_of s (r_a r)) mine) |}.
+     st_ratings := length (somes (map (fun r => rating2_of (r_a r)) mine));
+     st_rating_sum2 := zsum (somes (map (fun r => rating2_of (r_a r)) mine));
+     st_first := zmin_list (somes (map (fun r => ts_of s (r_a r)) mine));
+     st_last := zmax_list (somes (map (fun r => ts_of s (r_a r)) mine)) |}.
 Definition view_stats (s : schema) (c : cls) (d : dataset) : list stat_row :=
   map (stats_of s c d) (seq 0 (length (match c with User => d_users d | Item => d_items d end))).
 
@@ -343,11 +380,11 @@ Record sstate := {
   k_users : option (list id);     (* identifiers known so far (as a set; None = class has no table) *)
   k_items : option (list id);
   k_recs : list irow;             (* surviving records *)
-  k_cols : bool;
+  k_cols : colset;
   k_repeats : repeats
 }.
 Definition s_init (allow_repeats : bool) : sstate :=
-  {| k_users := None; k_items := None; k_recs := []; k_cols := false;
+  {| k_users := None; k_items := None; k_recs := []; k_cols := [];
      k_repeats := if allow_repeats then RAllowed else RForbidden |}.
 Definition s_known (v : option (list id)) (x : id) : bool := mem_z x (opt_vocab v).
 Definition id_pair_eqb (a b : id * id) : bool := Z.eqb (fst a) (fst b) && Z.eqb (snd a) (snd b).
@@ -378,7 +415,7 @@ Definition s_step (s : schema) (st : sstate) (o : op) : sstate * option err :=
                 | Ok v => ({| k_users := k_users st; k_items := v; k_recs := k_recs st; k_cols := k_cols st; k_repeats := k_repeats st |}, None)
                 | Err e => (st, Some e) end
       end
-  | AddInteractions rows p =>
+  | AddInteractions rows cols p =>
       match s_link (k_users st) (map uid_of rows) p with
       | Err e => (st, Some e)
       | Ok us =>
@@ -388,7 +425,7 @@ Definition s_step (s : schema) (st : sstate) (o : op) : sstate * option err :=
         | Ok is_ =>
           let st2 := {| k_users := us; k_items := is_; k_recs := k_recs st; k_cols := k_cols st; k_repeats := k_repeats st |} in
           let recs := k_recs st ++ filter (fun r => s_known us (uid_of r) && s_known is_ (iid_of r)) rows in
-          let done rp := ({| k_users := us; k_items := is_; k_recs := recs; k_cols := true; k_repeats := rp |}, None) in
+          let done rp := ({| k_users := us; k_items := is_; k_recs := recs; k_cols := or_cols (k_cols st) cols; k_repeats := rp |}, None) in
           match k_repeats st with
           | RPresent => done RPresent
           | RAllowed => if has_dup_idpair (map fst recs) then done RPresent else done RAllowed
@@ -398,12 +435,10 @@ Definition s_step (s : schema) (st : sstate) (o : op) : sstate * option err :=
       end
   | FilterInteractions lo hi rem =>
       let wants_time := match lo, hi with None, None => false | _, _ => true end in
-      if wants_time && negb (k_cols st && s_ts s) then (st, Some ERuntime)
+      if wants_time && negb (has_ts s (k_cols st)) then (st, Some ERuntime)
       else if needs_table rem (k_users st) (k_items st) then (st, Some EAssert)
       else
-        let keep_time (r : irow) :=
-          match lo with Some l => l <=? ts_of s (snd r) | None => true end &&
-          match hi with Some h => ts_of s (snd r) <? h | None => true end in
+        let keep_time (r : irow) := in_window lo hi (ts_of s (snd r)) in
         let removed (r : irow) :=
           match rem with
           | None => false
@@ -414,7 +449,7 @@ Definition s_step (s : schema) (st : sstate) (o : op) : sstate * option err :=
         ({| k_users := k_users st; k_items := k_items st;
             k_recs := filter (fun r => keep_time r && negb (removed r)) (k_recs st);
             k_cols := k_cols st; k_repeats := k_repeats st |}, None)
-  | Clear => ({| k_users := k_users st; k_items := k_items st; k_recs := []; k_cols := false; k_repeats := k_repeats st |}, None)
+  | Clear => ({| k_users := k_users st; k_items := k_items st; k_recs := []; k_cols := []; k_repeats := k_repeats st |}, None)
   end.
 Fixpoint s_run (s : schema) (st : sstate) (ops : list op) : sstate :=
   match ops with [] => st | o :: r => s_run s (fst (s_step s st o)) r end.
